@@ -57,6 +57,16 @@ func (m ModSpec) AllFiles() map[string]string {
 	return r
 }
 
+// EscVersion is the spelling of the version in file names of the cache
+// (module.EscapeVersion: an upper-case letter X becomes !x).
+func (m ModSpec) EscVersion() string {
+	e, err := module.EscapeVersion(m.Version)
+	if err != nil {
+		panic(err)
+	}
+	return e
+}
+
 func (m ModSpec) MV() module.Version { return module.MustNewVersion(m.Path+"@"+m.Major(), m.Version) }
 
 // Fault describes what the registry does on the n-th GetBlob of a zip (1-based, per process).
@@ -374,7 +384,7 @@ func runChild(specJSON string) int {
 						res.Ok = true
 						res.Equal = mf.QualifiedModule() == m.Path+"@"+m.Major()
 						// the cached file on disk must be the registry's module file
-						data, rerr := os.ReadFile(filepath.Join(spec.Cache, "mod", "download", m.Path, "@v", m.Version+".mod"))
+						data, rerr := os.ReadFile(filepath.Join(spec.Cache, "mod", "download", m.Path, "@v", m.EscVersion()+".mod"))
 						if rerr != nil || string(data) != m.ModuleCue() {
 							res.Equal = false
 							res.Diff = "cached .mod file differs"
